@@ -91,7 +91,8 @@ CHECKS = {
     ),
     "C08": dict(
         text="Proof that a source-independent cache invariant is preserved by every history of edits, deletions, cache losses, runs, faults and crashes, "
-             "hence 'success means current' for every history, given key soundness; key soundness is discharged at table level against the hash-struct field lists "
+             "hence 'success means current' for every history, given key soundness; key soundness is proved for the concrete analysis + generator model "
+             "(KeySound.lean: the generation is a function of the hashed view; C08_concrete has no hypothesis left about the key) and tied to the code at table level against the hash-struct field lists "
              "extracted from the source on every run (a forgotten field breaks the build of the theorem); tied to the real binary by edit/run/delete histories on both paths "
              "with byte comparison against a forced generation.",
         design_ref="DESIGN.md section 7.C08, Appendix I",
